@@ -41,9 +41,11 @@ class C09(Check):
     ]
     outside = ["torch / jax namespaces", "the generator's own sampling law given p (numpy)"]
     bounds = {
-        "quick": {"N": [2, 3], "d": 2, "sizes": "N, N+1, N-1", "beta_pairs": [[0, 0.5], [0.25, 1.0]]},
-        "thorough": {"N": [2, 3, 4], "d": 2, "sizes": "N, N+1, N-1", "beta_pairs": [[0, 0.5], [0.25, 1.0], [0.5, 0.75], [0, 1]]},
+        "quick": {"N": [2, 3], "d": 2, "sizes": "N, N+1, N-1", "beta_pairs": [[0, 0.5], [0.25, 1.0], [1.0, 1.0]], "whole_runs": LoopCheck.bounds["quick"]},
+        "thorough": {"N": [2, 3, 4], "d": 2, "sizes": "N, N+1, N-1", "beta_pairs": [[0, 0.5], [0.25, 1.0], [0.5, 0.75], [0, 1], [1.0, 1.0]], "whole_runs": LoopCheck.bounds["thorough"]},
     }
+    stubs = stubs + ["whole runs (configurations loop-*): " + t for t in LoopCheck.stubs]
+    outside = outside + LoopCheck.outside
 
     def configs(self, tier):
         out = []
